@@ -60,6 +60,7 @@ func (r rawReceiver) doneChan() <-chan struct{} {
 type broadcaster struct {
 	msgs     chan ctrlMsg  // send on this will broadcast
 	register chan receiver // send on this will register
+	closed   chan struct{} // closed when the broadcaster has stopped
 }
 
 func newBroadcaster() broadcaster {
@@ -68,9 +69,11 @@ func newBroadcaster() broadcaster {
 	b := broadcaster{
 		msgs:     make(chan ctrlMsg),
 		register: make(chan receiver),
+		closed:   make(chan struct{}),
 	}
 
 	go func() {
+		defer close(b.closed)
 		defer func() {
 			for _, r := range receivers {
 				close(r.sendChan())
@@ -117,8 +120,18 @@ func (b *broadcaster) Listen() rawReceiver {
 		make(chan ctrlMsg, 3),
 		make(chan struct{}),
 	}
-	b.register <- r
+	b.add(r)
 	return r
+}
+
+// add registers r. If the broadcaster has stopped (the TNC is closed), nobody is there to
+// receive the registration and nothing will ever be sent: r's channel is closed instead.
+func (b *broadcaster) add(r receiver) {
+	select {
+	case b.register <- r:
+	case <-b.closed:
+		close(r.sendChan())
+	}
 }
 
 func (b *broadcaster) ListenState() StateReceiver {
@@ -136,7 +149,7 @@ func (b *broadcaster) ListenState() StateReceiver {
 		}
 		close(cs)
 	}()
-	b.register <- r
+	b.add(r)
 	return r
 }
 
